@@ -446,8 +446,10 @@ def make_handler_class():
             self._bug('on_metadata_push')
 
         async def request_fire_and_forget(self, payload):
-            self._lookup('request_fire_and_forget', payload)
+            iid, ia = self._lookup('request_fire_and_forget', payload)
             self._bug('request_fire_and_forget')
+            if ia is not None and ia.get('hslow'):
+                await asyncio.sleep(ia['hslow'])  # a handler that takes its time: the receiver lags behind the wire
 
         async def request_response(self, payload):
             iid, ia = self._lookup('request_response', payload)
@@ -534,6 +536,19 @@ def make_handler_class():
             cb = getattr(self, 'on_close_hook', None)
             if cb is not None:
                 await cb(rsocket)
+            mode = getattr(self, 'on_close_mode', None)
+            try:
+                if mode:
+                    # an application's close handler may take its time (or fail)
+                    if mode[0] == 'sleep':
+                        await asyncio.sleep(mode[1])
+                    elif mode[0] == 'hops':
+                        for _ in range(mode[1]):
+                            await asyncio.sleep(0)
+                    elif mode[0] == 'raise':
+                        raise AppError('on_close failed')
+            finally:
+                self.world.rec('hnd', ep=self.ep, method='on_close_returned')
 
         async def on_keepalive_timeout(self, time_since_last_keepalive, rsocket):
             self._rec('on_keepalive_timeout', since=time_since_last_keepalive.total_seconds())
